@@ -42,7 +42,7 @@ struct Snap {
     other: Option<(AnimationState, Duration, f32)>,
     bystander: Target,
     bystander_v: f32,
-    extra: Option<(AnimationState, Duration, Target)>,
+    extra: Option<(AnimationState, Duration, Option<Target>)>,
 }
 
 fn snap(w: &SimWorld) -> Snap {
@@ -74,7 +74,7 @@ fn snap_of(w: &SimWorld, entity: Entity) -> Snap {
         extra: w.extra.map(|x| {
             let e = w.app.world.entity(x);
             let an = e.get::<Animator<Target>>().unwrap();
-            (an.state(), an.timeline_position, e.get::<Target>().unwrap().clone())
+            (an.state(), an.timeline_position, e.get::<Target>().cloned())
         }),
     }
 }
@@ -123,7 +123,7 @@ fn hash_snap(h: &mut ObsHash, s: &Snap) {
         h.u64(p.as_nanos() as u64);
         h.f32(x);
     }
-    if let Some((st, p, c)) = &s.extra {
+    if let Some((st, p, Some(c))) = &s.extra {
         h.u32(rank(*st) as u32 + 50);
         h.u64(p.as_nanos() as u64);
         h.f32(c.a);
@@ -346,7 +346,7 @@ fn execute(scn: &BScn, property: &str) -> RunOutcome {
             )
         })
     };
-    let extra_twin: Option<Twin> = cfg.extra_entity.map(|(tl, _)| Twin::new(cfg, tl, None));
+    let mut extra_twin: Option<Twin> = cfg.extra_entity.map(|(tl, _)| Twin::new(cfg, tl, None));
     let mut pending: Option<Pending> = None;
     let mut user_changed_since_end = false;
     let mut unacted_frames = 0usize;
@@ -357,6 +357,12 @@ fn execute(scn: &BScn, property: &str) -> RunOutcome {
     // never played; excluded from the Ended clauses until the next reset / re-target
     let mut stale_ended = false;
     let mut chain_present = true;
+    // the selector's `timelines` map as edited at run time (key -> index into cfg.tls)
+    let mut keys_now: Vec<Option<usize>> = cfg.keys.clone();
+    // the entry of the key in effect was edited after that key was acted on: the animator keeps
+    // playing what it was given, so "the key's timeline is in effect" is not claimed until the
+    // next re-target
+    let mut current_key_entry_edited = false;
     // side entities
     let lone_twin = cfg.lone_other.as_ref().map(|l| build_other_tl(&l.spec));
     let mut lone_had_component_when_it_ended = false;
@@ -385,6 +391,19 @@ fn execute(scn: &BScn, property: &str) -> RunOutcome {
             .get::<AnimationSelector<Key, Target>>()
             .map(|s| s.timeline_key);
         for op in &frame.ops {
+            let key_before_this_op = w
+                .app
+                .world
+                .entity(w.entity)
+                .get::<AnimationSelector<Key, Target>>()
+                .map(|s| s.timeline_key);
+            let selector_was_present = key_before_this_op.is_some();
+            let acted_before_this_op = w
+                .app
+                .world
+                .entity(w.entity)
+                .get::<AnimationSelector<Key, Target>>()
+                .and_then(|s| s.verif_acted_key().copied());
             let targets: Vec<Entity> = std::iter::once(w.entity).chain(w.mirror).collect();
             let r = catch(|| {
               for target_entity in &targets {
@@ -402,6 +421,7 @@ fn execute(scn: &BScn, property: &str) -> RunOutcome {
                         e.get_mut::<Animator<Target>>().unwrap().reset();
                     }
                     BOp::PauseTime(_) | BOp::TimeSpeed(_) | BOp::SpawnExtra | BOp::DespawnExtra => {}
+                    BOp::ExtraRemoveTarget | BOp::ExtraInsertTarget | BOp::ExtraReplaceAnimator(_) => {}
                     BOp::RemoveChain => {
                         e.remove::<AnimationChain<Key>>();
                     }
@@ -413,6 +433,21 @@ fn execute(scn: &BScn, property: &str) -> RunOutcome {
                     BOp::InsertSelector => {
                         if e.get::<AnimationSelector<Key, Target>>().is_none() {
                             insert_selector(cfg, &mut e);
+                        }
+                    }
+                    BOp::RemoveSelector => {
+                        e.remove::<AnimationSelector<Key, Target>>();
+                    }
+                    BOp::EditTimelines { key, tl } => {
+                        if let Some(mut sel) = e.get_mut::<AnimationSelector<Key, Target>>() {
+                            match tl {
+                                Some(i) => {
+                                    sel.timelines.insert(*key, Box::new(build_target_merged(&cfg.tls[*i])));
+                                }
+                                None => {
+                                    sel.timelines.remove(key);
+                                }
+                            }
                         }
                     }
                     BOp::SetTimeline { tl, reset, start_with } => {
@@ -444,6 +479,30 @@ fn execute(scn: &BScn, property: &str) -> RunOutcome {
                         out.count("op.extra_entity_spawned_late");
                     }
                 }
+                BOp::ExtraRemoveTarget => {
+                    if let Some(x) = w.extra {
+                        w.app.world.entity_mut(x).remove::<Target>();
+                        out.count("op.extra_entity_component_removed");
+                    }
+                }
+                BOp::ExtraInsertTarget => {
+                    if let Some(x) = w.extra {
+                        if w.app.world.entity(x).get::<Target>().is_none() {
+                            w.app.world.entity_mut(x).insert(target_of(&cfg.initial));
+                            out.count("op.extra_entity_component_reinserted");
+                        }
+                    }
+                }
+                BOp::ExtraReplaceAnimator(tl) => {
+                    if let Some(x) = w.extra {
+                        w.app
+                            .world
+                            .entity_mut(x)
+                            .insert(Animator::<Target>::with_timeline(build_target_merged(&cfg.tls[*tl])));
+                        extra_twin = Some(Twin::new(cfg, *tl, None));
+                        out.count("op.extra_entity_animator_replaced");
+                    }
+                }
                 BOp::DespawnExtra => {
                     if let Some(x) = w.extra.take() {
                         w.app.world.despawn(x);
@@ -463,7 +522,35 @@ fn execute(scn: &BScn, property: &str) -> RunOutcome {
             }
             match op {
                 BOp::PauseTime(_) | BOp::TimeSpeed(_) | BOp::SpawnExtra | BOp::DespawnExtra | BOp::RemoveChain | BOp::InsertChain => {}
-                BOp::InsertSelector => out.count("op.selector_inserted_later"),
+                BOp::ExtraRemoveTarget | BOp::ExtraInsertTarget | BOp::ExtraReplaceAnimator(_) => {}
+                BOp::InsertSelector => {
+                    if !selector_was_present {
+                        out.count("op.selector_inserted_later");
+                        // a fresh selector built from the configuration, chain included
+                        keys_now = cfg.keys.clone();
+                        chain_present = true;
+                    }
+                }
+                BOp::RemoveSelector => {
+                    if selector_was_present {
+                        out.count("op.selector_removed");
+                        pending = None;
+                    }
+                }
+                BOp::EditTimelines { key, tl } => {
+                    if selector_was_present {
+                        out.count("op.selector_timelines_edited");
+                        if let Some(slot) = keys_now.get_mut(*key as usize) {
+                            *slot = *tl;
+                        }
+                        // (the key in effect is the one the selector last acted on; the selector's
+                        // key may have been moved away and back without ever being acted on)
+                        if key_before_this_op == Some(*key) || acted_before_this_op == Some(*key) {
+                            out.count("probe.timeline_of_the_current_key_edited");
+                            current_key_entry_edited = true;
+                        }
+                    }
+                }
                 BOp::SetKey(k) => {
                     user_set_key = true;
                     out.count("op.set_key");
@@ -651,7 +738,8 @@ fn execute(scn: &BScn, property: &str) -> RunOutcome {
         if retargeted {
             out.count("probe.selector_retarget");
             let k = after.acted.unwrap();
-            twin = cfg.keys.get(k as usize).copied().flatten().map(|i| Twin::new(cfg, i, Some(&before.comp)));
+            twin = keys_now.get(k as usize).copied().flatten().map(|i| Twin::new(cfg, i, Some(&before.comp)));
+            current_key_entry_edited = false;
             ended_events_in_run = 0;
             stale_ended = false;
             swapped_while_ended = false;
@@ -953,12 +1041,19 @@ fn execute(scn: &BScn, property: &str) -> RunOutcome {
                 if *sa != AnimationState::Ended && *pa != *pb + delta {
                     fail!("C18", "position-not-conserved", "frame {fi}: second entity: {pb:?} + {delta:?} != {pa:?} in state {sa:?}");
                 }
-                if *sa == AnimationState::Playing {
-                    let c1 = tw.eval(cb, *pb);
-                    let c2 = tw.eval(cb, *pa);
-                    if !keyed_equal(m, ca, &c1) && !keyed_equal(m, ca, &c2) {
-                        fail!("C18", "playing-component-stale", "frame {fi}: second entity Playing at {pa:?} but its component is {}; timeline gives {} / {}", tbrief(ca), tbrief(&c1), tbrief(&c2));
+                if let (Some(cb), Some(ca)) = (cb, ca) {
+                    if *sa == AnimationState::Playing {
+                        let c1 = tw.eval(cb, *pb);
+                        let c2 = tw.eval(cb, *pa);
+                        if !keyed_equal(m, ca, &c1) && !keyed_equal(m, ca, &c2) {
+                            fail!("C18", "playing-component-stale", "frame {fi}: second entity Playing at {pa:?} but its component is {}; timeline gives {} / {}", tbrief(ca), tbrief(&c1), tbrief(&c2));
+                        }
                     }
+                    if let Some(f) = unkeyed_changed(Some(m), cb, ca) {
+                        fail!("C18", "unanimated-field-written", "frame {fi}: second entity: field {f} changed although its timeline does not keyframe it");
+                    }
+                } else {
+                    out.count("probe.extra_entity_frame_without_component");
                 }
                 if *sa == AnimationState::Ended && *sb != AnimationState::Ended {
                     out.count("probe.second_entity_ended");
@@ -1036,8 +1131,8 @@ fn execute(scn: &BScn, property: &str) -> RunOutcome {
             } else {
                 key_stable_frames = 0;
             }
-            if key_stable_frames > LATENCY {
-                let expected = cfg.keys.get(key_after as usize).copied().flatten();
+            if key_stable_frames > LATENCY && !current_key_entry_edited {
+                let expected = keys_now.get(key_after as usize).copied().flatten();
                 let playing = twin.as_ref().map(|t| t.tl_index);
                 if expected != playing {
                     fail!("C19", "selector-key-not-in-effect", "frame {fi}: key {key_after} has been active for {key_stable_frames} frames; its timeline is {expected:?} but the animator is set up for timeline {playing:?} (state {:?})", after.state);
